@@ -53,6 +53,10 @@ static const char* L_nfc_in; static char* L_nfc_out;
 #define DEP_IN_COPY 48
 static char L_nfc_in_copy[DEP_IN_COPY];   /* first bytes of what the composer was given */
 static char L_nfkd_in_copy[DEP_IN_COPY];  /* first bytes of what the decomposer was given */
+static size_t L_nfkd_in_len;              /* ... and its length (up to DEP_IN_LEN_MAX) */
+#ifndef DEP_IN_LEN_MAX
+#define DEP_IN_LEN_MAX 64
+#endif
 static const char* L_nfkd_in; static char* L_nfkd_out;
 static int L_seq;               /* global order of dependency calls */
 static int L_last_other_seq;    /* order number of the last call that is not a wipe (dependency or harness-level stub) */
@@ -150,6 +154,7 @@ static size_t dep_nfc(const char* str, polyseed_str norm) {
 }
 static size_t dep_nfkd(const char* str, polyseed_str norm) {
     DEP_TICK(); L_nfkd_calls++; L_nfkd_in = str; L_nfkd_out = norm;
+    { size_t n_ = 0; while (n_ < DEP_IN_LEN_MAX && str[n_] != '\0') n_++; L_nfkd_in_len = n_; }
     { bool end_ = false; for (int i_ = 0; i_ < DEP_IN_COPY; ++i_) { if (!end_ && str[i_] == '\0') end_ = true; L_nfkd_in_copy[i_] = end_ ? '\0' : str[i_]; } }
     return dep_norm_write(norm);
 }
